@@ -228,14 +228,16 @@ type sim struct {
 	// gossip: every message a correct validator broadcast or received from a
 	// byzantine validator (what a gossip layer would eventually spread)
 	gossip   []msg
-	gossiped map[msg]struct{}
+	gossipTo []uint32      // per gossip entry: validators it was already delivered to
+	gossiped map[msg]int32 // message -> index in gossip
 	decided  map[types.Height]uint64
 	decider  map[types.Height]int
 	seen     map[types.Height][]uint64 // value ids proposed at a height (adversary's alphabet)
 	hash     uint64
 	steps    int
 	violated bool
-	trace    []event
+	trace    [128]event
+	ntrace   int
 	st       stats
 	byzProps map[[2]int64]msg // (h,r) -> first proposal a byzantine proposer sent
 	// set when a byzantine proposer sent two different proposals for one (h,r)
@@ -259,7 +261,7 @@ func newSim(r *lib.Run, idx int, c *config, rng *rand.Rand) *sim {
 	s := &sim{
 		r: r, idx: idx, c: c, rng: rng, nodes: make([]*node, c.n),
 		decided: map[types.Height]uint64{}, decider: map[types.Height]int{},
-		seen: map[types.Height][]uint64{}, gossiped: map[msg]struct{}{}, hash: 1469598103934665603,
+		seen: map[types.Height][]uint64{}, gossiped: map[msg]int32{}, hash: 1469598103934665603,
 		byzProps: map[[2]int64]msg{},
 	}
 	vs := valset{c}
@@ -287,9 +289,8 @@ func (s *sim) mix(x uint64) {
 func (s *sim) note(to int, m msg) {
 	s.mix(uint64(to)<<56 ^ uint64(m.kind)<<48 ^ uint64(uint8(m.from))<<40 ^ uint64(m.h)<<32 ^ uint64(uint16(m.r))<<16 ^ uint64(uint8(m.vr))<<8 ^ uint64(m.step))
 	s.mix(m.val)
-	if len(s.trace) < 6000 {
-		s.trace = append(s.trace, event{int8(to), m})
-	}
+	s.trace[s.ntrace%len(s.trace)] = event{int8(to), m}
+	s.ntrace++
 }
 
 func (s *sim) allDone() bool {
@@ -305,8 +306,9 @@ func (s *sim) addGossip(m msg) {
 	if _, ok := s.gossiped[m]; ok {
 		return
 	}
-	s.gossiped[m] = struct{}{}
+	s.gossiped[m] = int32(len(s.gossip))
 	s.gossip = append(s.gossip, m)
+	s.gossipTo = append(s.gossipTo, 0)
 }
 
 func (s *sim) sawValue(h types.Height, v uint64) {
@@ -333,6 +335,11 @@ func (s *sim) deliver(to int, m msg) {
 	}
 	s.steps++
 	s.note(to, m)
+	if m.kind != kTimeout {
+		if k, ok := s.gossiped[m]; ok {
+			s.gossipTo[k] |= 1 << uint(to)
+		}
+	}
 	var acts []starknet.Action
 	switch m.kind {
 	case kTimeout:
@@ -450,22 +457,27 @@ func (s *sim) fire(i int, step types.Step, r types.Round) bool {
 // pump delivers in-flight messages accepted by allow (in random order) until none is left.
 func (s *sim) pump(allow func(to int, m *msg) bool) int {
 	n := 0
-	for guard := 0; guard < 100000 && !s.violated; guard++ {
-		var cand []int
-		for k := range s.fl {
-			if allow(int(s.fl[k].to), &s.fl[k].m) {
-				cand = append(cand, k)
+	var batch []flight
+	for guard := 0; guard < 10000 && !s.violated; guard++ {
+		batch = batch[:0]
+		k := 0
+		for _, f := range s.fl {
+			if allow(int(f.to), &f.m) {
+				batch = append(batch, f)
+			} else {
+				s.fl[k] = f
+				k++
 			}
 		}
-		if len(cand) == 0 {
+		s.fl = s.fl[:k]
+		if len(batch) == 0 {
 			return n
 		}
-		k := cand[s.rng.IntN(len(cand))]
-		f := s.fl[k]
-		s.fl[k] = s.fl[len(s.fl)-1]
-		s.fl = s.fl[:len(s.fl)-1]
-		s.deliver(int(f.to), f.m)
-		n++
+		s.rng.Shuffle(len(batch), func(i, j int) { batch[i], batch[j] = batch[j], batch[i] })
+		for _, f := range batch {
+			s.deliver(int(f.to), f.m)
+			n++
+		}
 	}
 	return n
 }
